@@ -57,14 +57,16 @@ CLAIMED = {
             "coordinate modulo the period of its own axis, Lattice get/set/patch/init use the same key expression, and the "
             "rejection guards dominate construction. The enumerated value-level invariants (each site once, total order) are "
             "NOT decided.",
-            "trusted: python ast; some sub-rules compare normalised source text of short expressions (comparison forms)",
+            "trusted: python ast; the boundary-letter table _periodic_dict is evaluated as a literal; some sub-rules compare normalised "
+            "source text of short key expressions",
             "DESIGN.md §4 C20"),
     "C13": ("orderdir",
             "order-direction abstract interpretation of argsort index arrays and their slices; def-use of the keep-count",
             "Partial: decides that what truncation_mask / truncation_mask_multiplets mask off is the low end of an ordering of "
             "the spectrum (block stage: of the very block written; global stage: of the already masked spectrum), that the "
             "keep-count is min(user limit, number strictly above relative tolerance), that K==0 cannot reach the empty slice "
-            "[:-0], that the spectrum is copied first, and that the wrappers apply one mask to all factors. The Eckart-Young "
+            "[:-0], that the spectrum is copied first, that the wrappers apply one mask to all factors, and that each scalar-or-dict "
+            "dispatch of a user limit tests the limit whose value it selects. The Eckart-Young "
             "optimality/error identity itself is numerical and NOT decided.",
             "trusted: argsort is ascending; python ast",
             "DESIGN.md §4 C13"),
@@ -74,7 +76,9 @@ CLAIMED = {
             "invalidated for exactly the written sites and refreshed after, and at the site of, the new isometry (site "
             "expressions compared as polynomials per sweep direction); that every key memoised in env.F is popped by that "
             "class's clear_site_; that the reported energy is env.measure() after the sweep of the same iteration on "
-            "<psi|H|psi>; and that DMRG normalises, ends at the first site and canonises its input. The variational bound, "
+            "<psi|H|psi>; that DMRG normalises, ends at the first site and canonises its input; that every effective operator is "
+            "linear in its input and sesquilinear in (bra, ket) (91 typed contraction operands), that projection penalties are "
+            "p|X><X|, and that eigs returns combinations of its orthonormal basis started from v0/|v0|. The variational bound, "
             "monotonicity and convergence to an eigenstate are numerical and NOT decided.",
             "trusted: CFG builder, exact polynomial arithmetic; only explicit raise is exceptional flow",
             "DESIGN.md §4 C09/C10"),
@@ -84,7 +88,8 @@ CLAIMED = {
             "order the sub-step lengths sum to ds and H is sampled at each sub-step's mid-point (rational-function identities; "
             "the 4th-order constant equals 1/(4-4^(1/3)) to 1e-15), that steps*ds = t1-t0 with exactly `steps` iterations and the "
             "reported time is the loop-carried one, that bad dt/times raise, that the Krylov memo is per site, and the sweep "
-            "ordering rules of C09 for the three TDVP sweeps. Conservation laws and agreement with expm are numerical and NOT decided.",
+            "ordering rules of C09 for the three TDVP sweeps, that expmv returns a combination of its orthonormal Krylov basis started "
+            "from v/|v|, that all Heff are linear in their input and all Heff0/1/2 siblings carry the operator's norm factor. Conservation laws and agreement with expm are numerical and NOT decided.",
             "trusted: exact rational arithmetic with float literals taken exactly; CFG builder",
             "DESIGN.md §4 C09/C10"),
     "C05": ("fermisign",
@@ -93,17 +98,21 @@ CLAIMED = {
             "computations restrict the charge-parity product to the components declared fermionic before summing and reduce "
             "mod 2 before use, that the flag vector is built consistently, that swap_gate is an involution by construction "
             "(only data replaced; negated slices a pure function of structure; negate_blocks = -x on a copy), and that fkron "
-            "strings carry strictly later charges. Order independence of ncon with swaps and the CAR of fkron are value-level "
-            "and NOT decided.",
-            "trusted: python ast; C16-K1 for purity of _meta_swap_gate*; several sub-rules compare normalised source text of "
-            "short statements",
+            "strings carry strictly later charges, and that every jump move of the ncon/einsum swap resolver emits its parity "
+            "correction on every path, toggles the other legs, is followed by the collection of same-tensor swaps, with every "
+            "emitted command kind executed. Completeness/termination of the swap resolution (order independence) and the CAR of "
+            "fkron are value-level and NOT decided.",
+            "trusted: python ast; C16-K1 for purity of _meta_swap_gate*",
             "DESIGN.md §4 C05"),
     "C06": ("factorflow",
             "intra-procedural taint (data-dependence) of operands' norm factor + sibling comparison + exact rational identity",
             "Partial: decides that the norm factor of every operand reaches the result of add/multiply/__mul__/shallow_copy-based "
             "operations/to_tensor/zipper/overlap environments/projections, that all 12+ concrete Heff0/1/2 of the <bra|op|ket> "
             "family multiply by self.op.factor and Env_sum sums its members, and that new factor * phase == number * factor in "
-            "scalar multiplication. That sums/products/overlaps equal the dense objects is value-level and NOT decided.",
+            "scalar multiplication; that zipper, analysed separately for normalize=True/False on a CFG specialised on that knob, "
+            "multiplies the MPO's factor in on every path and never overwrites the factor; that sector charges read from a leg enter "
+            "charge arithmetic with that leg's signature; that overlap recursions are sesquilinear (bra tensors conjugated, ket/operator "
+            "not; 56 typed contraction operands). That sums/products/overlaps equal the dense objects is value-level and NOT decided.",
             "trusted: python ast, exact rational arithmetic; taint is flow-insensitive inside a function",
             "DESIGN.md §4 C06/C08"),
     "C08": ("factorflow",
@@ -112,7 +121,8 @@ CLAIMED = {
             "the factor (normalize resets it to 1) in orthogonalize_site_, diagonalize_central_, both zippers and "
             "mps_from_tensor; that discarded weights compose as a+x-ax with x a squared local weight and are square-rooted in "
             "truncate_ and both zippers; that the local weight uses the complement of the truncating mask and the untruncated "
-            "norm; that norm()/get_Schmidt_values() work on shallow copies. Isometry of site tensors and equality of Schmidt "
+            "norm of a complete (not partial-policy) decomposition; that norm()/get_Schmidt_values() work on shallow copies and that "
+            "shallow_copy carries every mutable state field (A, pC, factor). Isometry of site tensors and equality of Schmidt "
             "values with the dense state are NOT decided.",
             "trusted: python ast, exact rational arithmetic; one named exception (2-site compression sweep re-derives the factor "
             "from the overlap, checked separately)",
@@ -124,7 +134,9 @@ CLAIMED = {
             "that positional helpers receive materialised tensors, that results resetting the lazy permutation carry struct/hfs "
             "permuted through trans, that user-ordered per-leg data is combined with native fields only after the permutation was "
             "accounted for, that s/hfs/mfs of results come from the same leg sequences, that negative axes are normalised first, "
-            "that binary kernels promote dtypes and update output-buffer views in place. These are necessary conditions of "
+            "that binary kernels promote dtypes and update output-buffer views in place, that sequences paired position by position "
+            "are enumerated in the same leg order (engine seqorder), that fusion metadata of factors comes from the leg group it "
+            "belongs to. These are necessary conditions of "
             "'commutes with to_numpy'; block-pairing arithmetic and numerical content are NOT decided.",
             "trusted: seed table of index spaces for API/helper parameters (sa/props/e3.py); untyped literal indices not judged",
             "DESIGN.md §4 C01/C14"),
@@ -132,7 +144,8 @@ CLAIMED = {
             "formal charge arithmetic (free module with signature symbols) + CFG dominance of selection-rule guards + E3 + E1",
             "Partial: decides that every expression setting a total charge evaluates, as a formal signed sum, to what the algebra "
             "dictates (24 table rows incl. guards), that the selection rule dominates block creation and loaders validate, that "
-            "s/hfs/mfs of results are coherent (E3) and that only constructor/in-place API write tensor state. Mutual consistency "
+            "s/hfs/mfs of results are coherent (E3), that every width-nsym slice of a flat block-charge tuple starts at a multiple of "
+            "nsym (34 sites) and that only constructor/in-place API write tensor state. Mutual consistency "
             "of t, D, slices, size produced by the _meta_* functions (and hence zeros outside allowed sectors) is value-level and "
             "NOT decided.",
             "trusted: C19 (group law linear mod m); table of charge rows in sa/props/e6.py",
@@ -141,7 +154,7 @@ CLAIMED = {
             "must-pass-through of compatibility tests, def-use of the mask_needed verdict, index typing of masking helpers",
             "Partial: decides that tensordot/vdot/trace/addition pass the fusion-compatibility and configuration tests on every "
             "computing path, that unsupported fused legs are rejected, that the verdict mask_needed guards masking/embedding and "
-            "replacement of histories, that masks are applied with native indices on materialised tensors, that N-ary addition "
+            "replacement of histories (a verdict obtained pair by pair in a loop must be accumulated), that masks are applied with native indices on materialised tensors, that N-ary addition "
             "treats all operands alike. Correctness of the tree-parsing mask construction is value-level and NOT decided.",
             "trusted: python ast, CFG builder",
             "DESIGN.md §4 C03"),
@@ -159,10 +172,24 @@ CLAIMED = {
             "Partial: decides that the three knobs are read only by tensordot and fuse_legs, that the policy only selects among "
             "kernels receiving the same operands and binding the same results (unknown values raise), that charge/fusion "
             "metadata/masking are computed outside the dispatch, that both fusion modes share validation, and — via the E3 rules — "
-            "that lazy and meta-fused operands are addressed through the right index spaces. Numerical agreement of the three "
+            "that lazy and meta-fused operands are addressed through the right index spaces and enumerated in consistent leg order, "
+            "and that per-leg charge slices are aligned to nsym also in the unrolled-contraction code. Numerical agreement of the three "
             "kernels and path-independence of contract_with_unroll are NOT decided.",
             "trusted: python ast, CFG builder, seed table of index spaces",
             "DESIGN.md §4 C14"),
+    "C18": ("krylovbook",
+            "structural pairing rules of the Gram-Schmidt bookkeeping + CFG specialised on the normalize knob + def-use of the residual",
+            "Partial (structural clauses only): decides for every linear map and start vector that expand_krylov_space records in H "
+            "exactly the overlaps <V[i]|w> it subtracts (basis vector as bra, same index), normalises by the recorded norm and leaves "
+            "before dividing on breakdown; that eigs/expmv/lin_solver divide their start vector by its own norm with the zero vector "
+            "handled first; that every returned vector is a Tensor.add combination of the orthonormal basis (and the initial guess), "
+            "and Tensor.add rejects other charges, hence results stay in the symmetry sector of the start vector; that expmv multiplies "
+            "the accumulated norm back on every path iff normalize is False; that lin_solver reports |f(x) - b| recomputed from the "
+            "returned x. Accuracy to tolerance, the adaptive controller of expmv and the variational property of Ritz values are "
+            "numerical and NOT decided.",
+            "trusted: python ast, CFG builder; the structural rules name the solver's local variables (a rename is reported as a vanished "
+            "anchor, exit 2, not as a violation)",
+            "DESIGN.md §9.8 C18"),
 }
 
 NOT_APPLICABLE = {
@@ -172,8 +199,6 @@ NOT_APPLICABLE = {
            "wrong contraction pattern is the realistic failure and is invisible to static analysis (DESIGN §5)",
     "C12": "exact PEPS expectation values and PSD metrics are numerical statements about thousands of lines of literal "
            "contraction patterns (DESIGN §5)",
-    "C18": "accuracy of adaptive Krylov approximants vs dense matrix functions is a numerical tolerance statement "
-           "(DESIGN §5)",
 }
 
 ALL = [f"C{i:02d}" for i in range(1, 21)]
